@@ -51,7 +51,14 @@ def mk_call(fnkey, substs, args, site, res=None):
         a, b = substs[0], substs[1]
         if a == b or (_idlike(a) and _idlike(b)):
             return args[0]
+    # a lossless integer widening spelled `u64::from(x)` / `x.into()` is the cast `x as u64`
+    m_ = _WIDEN.match(res or fnkey or "")
+    if m_ and len(args) == 1:
+        return ("CAST", args[0], m_.group(2))
     return ("C", res or fnkey, substs, args, site)
+
+
+_WIDEN = re.compile(r"^std::convert::num::<impl std::convert::From<(u8|u16|u32|u64|usize|i8|i16|i32|i64|bool)> for (u16|u32|u64|u128|usize|i16|i32|i64|i128|isize)>::from$")
 
 
 def is_k(e):
